@@ -8,7 +8,8 @@ from vlib.known import allowed, pick as pick_dev
 from vlib.sim import (new_loop, SimTransport, provider, Rec, RecPub, generic_dev, conc, concb, grammar_dev, terminals)
 
 from rsocket.frame import (SetupFrame, KeepAliveFrame, RequestResponseFrame, PayloadFrame)
-from rsocket.frame_builders import to_payload_frame
+from rsocket.frame_builders import to_payload_frame, to_request_response_frame
+from rsocket.helpers import create_future
 from rsocket.payload import Payload
 from rsocket.request_handler import BaseRequestHandler
 from rsocket.rsocket_client import RSocketClient
@@ -19,6 +20,7 @@ ROUNDS = part('rounds', 1)
 RECONNECT_FROM_ON_CLOSE = part('from_on_close', False)   # causes 0/1: the application reconnects from its on_close callback
 SUSPEND_CONNECT = part('suspend_connect', False)
 CLOSE_RAISES = part('close_raises', False)   # the old transport's close() raises ConnectionResetError (reset connection)
+FRAG_IN = part('frag_in', False)   # the server was in the middle of a fragmented request of its own (stream 2) when the connection ended
 IDLE_MAX = part('idle_max', 2500000)
 PEND = part('pend', None)          # optional partition: [pending request-response?, pending stream?, when]
 P_US = 1000000
@@ -30,6 +32,11 @@ class _H(BaseRequestHandler):
         self.closed = 0
         self.timeouts = 0
         self.sock = None
+
+    async def request_response(self, payload):
+        f = create_future()
+        f.set_result(Payload(b'pong:' + bytes(payload.data or b'')))
+        return f
 
     async def on_keepalive_timeout(self, time_since_last_keepalive, rsocket):
         self.timeouts += 1
@@ -118,6 +125,11 @@ def c_reconnect(pend_rr: bool, pend_rs: bool, when: int, idle_us: int, settle_us
                     s = Rec()
                     c.request_stream(Payload(b's')).subscribe(s)
                     pend.append(('rs', s))
+            if FRAG_IN:
+                half = to_request_response_frame(2, Payload(b'x' * 10))
+                half.flags_follows = True            # first fragment only: the rest never arrives on this connection
+                told.feed_wire(half)
+                loop.run_ready()
             _end_connection(loop, c, told, CAUSE, idle)
             if SUSPEND_CONNECT:
                 loop.advance_us(settle_us // 2)
@@ -161,6 +173,14 @@ def c_reconnect(pend_rr: bool, pend_rs: bool, when: int, idle_us: int, settle_us
                 loop.run_ready()
                 if not fut.done() or fut.cancelled() or fut.exception() is not None or bytes(fut.result().data) != b'answer':
                     devs.append('C17:request-after-reconnect-not-answered')
+            if FRAG_IN and not devs:
+                # the server's stream ids restart too: its request on stream 2 of the NEW connection is served
+                n1 = len(tnew.sent)
+                tnew.feed_wire(to_request_response_frame(2, Payload(b'ping')))
+                loop.run_ready()
+                ans = [f for _, f in tnew.sent[n1:] if f.stream_id == 2]
+                if len(ans) != 1 or not isinstance(ans[0], PayloadFrame) or bytes(ans[0].data or b'') != b'pong:ping':
+                    devs.append('C17:server-request-on-the-new-connection-not-served(state-of-the-old-connection-kept)')
             # ---- keep-alives flow again on the new transport
             k0 = len([f for f in tnew.frames() if isinstance(f, KeepAliveFrame)])
             loop.advance_us(P_US + 10)
